@@ -116,8 +116,8 @@ def compileFn (parse : String → Option Term) (f : Gen.DigestFn) : Option Table
     let ts ← c.args.mapM fun a => parse a.expr
     pure (c.versions, ts)
 
-def askTable : Option Table := compileFn parseAskExpr Gen.askDigest
-def bidTable : Option Table := compileFn parseBidExpr Gen.bidDigest
+def askTable : Option Table := compileFn parseAskExpr Gen.C12.askDigest
+def bidTable : Option Table := compileFn parseBidExpr Gen.C12.bidDigest
 
 def lookupCase (tbl : Table) (v : Nat) : Option (List Term) :=
   (tbl.find? fun c => c.1.contains v).map (·.2)
@@ -215,9 +215,9 @@ def compileLit (l : List (String × String)) : Option Mapping :=
     let e ← parseWExpr e
     pure (f, e)
 
-def serverOrderMap : Option Mapping := compileLit Gen.submitServerOrder
-def serverAskMap : Option Mapping := compileLit Gen.submitServerAsk
-def serverBidMap : Option Mapping := compileLit Gen.submitServerBid
+def serverOrderMap : Option Mapping := compileLit Gen.C12.submitServerOrder
+def serverAskMap : Option Mapping := compileLit Gen.C12.submitServerAsk
+def serverBidMap : Option Mapping := compileLit Gen.C12.submitServerBid
 
 /-- a transmitted protobuf field value -/
 inductive WV
@@ -233,14 +233,14 @@ structure Params where
   nodePubkey : Bytes
 deriving DecidableEq, Repr
 
-def base : Nat := Gen.digestBaseSupplyUnit
+def base : Nat := Gen.C12.digestBaseSupplyUnit
 def two64 : Nat := 18446744073709551616
 
 /-- value of a right-hand side of the literals; `none` = SubmitOrder returns an error before sending
 (default clause of the channel type switch, `MarshallNodeTier` error) -/
 def evalW (o : Order) (p : Params) : WExpr → Option WV
   | .acctKey => some (.bytes o.acctKey)
-  | .auctionTypeLocal => some (.num ((Gen.submitAuctionType.lookup o.auctionType).getD 0))
+  | .auctionTypeLocal => some (.num ((Gen.C12.submitAuctionType.lookup o.auctionType).getD 0))
   | .fixedRate => some (.num o.fixedRate)
   | .amtU64 => some (.num (u64OfInt o.amt))
   | .minChanAmtLocal => some (.num (o.minUnitsMatch * base % two64))   -- uint64(MinUnitsMatch.ToSatoshis())
@@ -249,7 +249,7 @@ def evalW (o : Order) (p : Params) : WExpr → Option WV
   | .paramMultiSig => some (.bytes p.multiSigKey)
   | .paramNodePub => some (.bytes p.nodePubkey)
   | .nodeAddrs => some .other
-  | .channelTypeLocal => (Gen.submitChannelType.lookup o.channelType).map .num
+  | .channelTypeLocal => (Gen.C12.submitChannelType.lookup o.channelType).map .num
   | .feeU64 => some (.num (u64OfInt o.maxBatchFeeRate))
   | .isPublic => some (.bool o.isPublic)
   | .detailsLocal => some .other
@@ -257,7 +257,7 @@ def evalW (o : Order) (p : Params) : WExpr → Option WV
   | .versionU32 => some (.num o.version)
   | .announcementLocal => some (.num o.announcement)
   | .confirmationsLocal => some (.num o.confirmation)
-  | .nodeTierEnum => (Gen.marshallNodeTier.lookup o.minNodeTier).map .num
+  | .nodeTierEnum => (Gen.C12.marshallNodeTier.lookup o.minNodeTier).map .num
   | .scbU64 => some (.num (u64OfInt o.selfChanBalance))
   | .sidecarNonNil => some (.bool o.sidecar)
   | .unannounced => some (.bool o.unannounced)
@@ -275,7 +275,7 @@ def toWire (o : Order) (p : Params) : Except Err (Wire × Wire) :=
   match serverOrderMap, (if o.isBid then serverBidMap else serverAskMap) with
   | some dm, some sm =>
     -- the channel type switch runs first, MarshallNodeTier inside the bid clause
-    if (Gen.submitChannelType.lookup o.channelType).isNone then .error .channelType
+    if (Gen.C12.submitChannelType.lookup o.channelType).isNone then .error .channelType
     else match evalMap o p dm, evalMap o p sm with
       | some d, some s => .ok (d, s)
       | _, _ => .error .nodeTier
@@ -294,7 +294,7 @@ def wbool (w : Wire) (f : WField) : Option Bool :=
 
 /-- inverse of `MarshallNodeTier`: the order-side value whose image is the transmitted enum -/
 def unmarshallNodeTier (n : Nat) : Option Nat :=
-  (Gen.marshallNodeTier.find? fun p => p.2 == n).map (·.1)
+  (Gen.C12.marshallNodeTier.find? fun p => p.2 == n).map (·.1)
 
 /-- The order as rebuilt from the transmitted fields (what the auctioneer has to do to check the
 signature): `ParseRPCServerOrder`'s assignments and channel-type switch, `MinUnitsMatch =
@@ -308,7 +308,7 @@ def orderOfWire (isBid : Bool) (d s : Wire) : Option Order := do
   let amt ← wnum d .amt
   let minChan ← wnum d .minChanAmt
   let ct ← wnum d .channelType
-  let ct' ← Gen.parseChannelType.lookup ct
+  let ct' ← Gen.C12.parseChannelType.lookup ct
   let fee ← wnum d .maxBatchFeeRate
   let pub ← wbool d .isPublic
   let lease ← wnum s .leaseDurationBlocks
@@ -334,5 +334,60 @@ def orderOfWire (isBid : Bool) (d s : Wire) : Option Order := do
     let an ← wnum s .announcement
     let cf ← wnum s .confirmation
     pure { o with announcement := an, confirmation := cf }
+
+
+/-! ## order/rpc_parse.go `ParseRPCOrder`: the trader's order as built from the RPC request -/
+
+/-- the fields of `poolrpc.Order` that `ParseRPCOrder` reads; a node id is (length, parses as a public key) -/
+structure RpcOrder where
+  traderKey : Bytes
+  rateFixed : Nat              -- uint32
+  amt : Nat                    -- uint64
+  maxBatchFeeRate : Nat        -- uint64
+  orderNonce : Bytes
+  minUnitsMatch : Nat          -- uint32
+  channelType : Nat            -- enum
+  auctionType : Nat            -- enum
+  isPublic : Bool
+  allowed : List (Nat × Bool)
+  notAllowed : List (Nat × Bool)
+deriving DecidableEq, Repr
+
+inductive ParseErr
+  | randomNonce | minUnitsZero | minUnitsExceed | channelType | bothLists | allowedId | notAllowedId
+deriving DecidableEq, Repr
+
+/-- Go `copy(dst[:n], src)` into a zeroed array -/
+def copyInto (n : Nat) (src : Bytes) : Bytes := src.take n ++ List.replicate (n - src.length) 0
+
+def outboundMarket : Nat := Gen.C12.digestBTCOutboundLiquidity
+
+/-- `ParseRPCOrder(version, leaseDuration, details, opts…)`; `selector` = the optional default channel type
+selector.  A zero nonce makes the real code draw a random preimage; the (otherwise successful) result is
+then not reproducible and reported as `randomNonce`. -/
+def parseRPCOrder (version lease : Nat) (d : RpcOrder) (selector : Option Nat) : Except ParseErr Order :=
+  let nonce := copyInto 32 d.orderNonce
+  let amt := wrapI64 d.amt
+  let units := u64OfInt amt / base
+  if d.minUnitsMatch == 0 then .error .minUnitsZero
+  else if d.auctionType != outboundMarket && d.minUnitsMatch > units % 4294967296 then .error .minUnitsExceed
+  else
+    let ct : Option Nat :=
+      if d.channelType == 0 then some (selector.getD 0) else Gen.C12.parseOrderChannelType.lookup d.channelType
+    match ct with
+    | none => .error .channelType
+    | some ct =>
+      if !d.allowed.isEmpty && !d.notAllowed.isEmpty then .error .bothLists
+      else if d.allowed.any (fun i => i.1 != 33 || !i.2) then .error .allowedId
+      else if d.notAllowed.any (fun i => i.1 != 33 || !i.2) then .error .notAllowedId
+      -- every check passed; with a zero nonce the order carries a freshly drawn random nonce
+      else if nonce == List.replicate 32 0 then .error .randomNonce
+      else .ok
+        { isBid := false, nonce := nonce, version := version, state := 0, fixedRate := d.rateFixed, amt := amt,
+          units := units, unitsUnfulfilled := units, maxBatchFeeRate := wrapI64 d.maxBatchFeeRate,
+          acctKey := copyInto 33 d.traderKey, leaseDuration := lease, minUnitsMatch := d.minUnitsMatch,
+          channelType := ct, auctionType := d.auctionType, isPublic := d.isPublic, minNodeTier := 0,
+          selfChanBalance := 0, sidecar := false, unannounced := false, zeroConf := false, announcement := 0,
+          confirmation := 0 }
 
 end Pool.C12
